@@ -72,7 +72,7 @@ CLAIMS = {
              'c20_close_honoured / c20_close_ignored / c20_close_bad_id, c20_close_sequence, c20_join_waits_for_writer, c20_shutdown_waits_for_pool, c20_closed_means_drained (invariant: socket closed by the library => writer ended, pool drained, every accepted job completed), '
              'c20_no_fault_no_report, c20_writer_drains, c20_exit_only_after_report (monitor exit_ok along every execution), c20_read_fault, c20_own_close_silent, c20_handler_decides_reader / _writer (exit iff the handler returns True), c20_write_fault, c20_reclose (Props/C20.v). '
              'The real servers run under the deterministic scheduler with scripted EOF / ECONNRESET after each chunk position (before init, mid-line, between requests), the k-th write failing, handler absent / returning True / False / None, agreed versions none / 1.8.2 / 1.8.3, close ids 0 / other, '
-             'application close() once or twice; os._exit is substituted by a recording primitive that halts the run; every step is replayed through the model and the property text is the oracle (handler calls, exit calls, socket close, bytes written after the fault). Faults also hit in the middle of the last line (between CR and LF, before the terminator, inside a token); six classes of injected I/O errors; a failing write may leave a fragment.',
+             'application close() once or twice; os._exit is substituted by a recording primitive that halts the run; every step is replayed through the model and the property text is the oracle (handler calls, exit calls, socket close, bytes written after the fault). Faults also hit in the middle of the last line (between CR and LF, before the terminator, inside a token); six classes of injected I/O errors; a failing write may leave a fragment. With a positive keepalive interval (virtual time) the timed writer loop of C13 is extended with write faults (Model/SenderFault.v): c20_timed_fault_reported_once, c20_exit_iff, c20_fault_hits_any_write, c20_timer_keepalive_fault_reported (a fault on the KEEPALIVE the timer produced is reported like any other), c20_nothing_after_fault, c20_wire_before_fault, c20_fault_free_is_c13; both real servers run with the 1st..9th sendall failing, whatever it carries, and are compared with the model (writes with times, sendall attempts, handler notifications, exits).',
         ref='6 C20',
         note=SHELL_NOTE + ' Runtime facts assumed, not modelled: socket.close() waking a blocked recv is OS dependent (scripted as an error on the next recv); os._exit never returns.',
         tech='Coq proof (inductive invariants, history monitors and step lemmas over a connection-level LTS with fault labels) + scheduler-driven fault-injection correspondence + oracle'),
